@@ -30,7 +30,7 @@ def run(res, pool, tier, seed):
                      simulate="num=500", depth=7, tlc_seed=seed + 11, workers=8, spec="SpecSim")]
     engine.run_jobs(res, jobs, pool)
     import traces
-    traces.run_for(res, ["unit_tests", "driver"], {"C07"}, seed=seed + 4, nsessions=300 if tier == "quick" else 3000)
+    traces.run_for(res, ["unit_tests", "driver", "sessions"], {"C07"}, seed=seed + 4, nsessions=300 if tier == "quick" else 3000)
 
 
 def vec(v, pose, num):
